@@ -11,6 +11,6 @@ CONSTANTS
   LMAX = 2
   STALL = 0
   WMAX = 10
-  BUG = "no_flush_on_last"
+  BUG = "cache_hit_lane"
 INVARIANTS NoClauseBroken MemAllowed AckWithinBound OneOutstanding
 CHECK_DEADLOCK TRUE
